@@ -87,10 +87,10 @@ func runReplay(bin string, r *Replay, dir, realDir string, trace bool, raceLog s
 		args = append(args, "--trace")
 	}
 	cmd := exec.Command(bin, args...)
-	gorace := "GORACE=suppress_equal_stacks=0 suppress_equal_addresses=0 history_size=5"
-	if raceLog != "" {
-		gorace += " log_path=" + raceLog
+	if raceLog == "" {
+		raceLog = filepath.Join(dir, "racelog-discard")
 	}
+	gorace := goraceBase + " log_path=" + raceLog
 	cmd.Env = append(os.Environ(), gorace)
 	var so, se strings.Builder
 	cmd.Stdout, cmd.Stderr = &so, &se
